@@ -39,3 +39,12 @@ def r_shared_c15_r5(run, tree):
 
 
 RULES = [r_shared_c15_r5, r1, r2, r3, r4]
+
+
+def t_load_space(run, tree):
+    run.rule("C15.T1", "thorough: Loader.load folded over 324 scenarios (ndim 1-3 x ncpu 1-3 x levelmax 2-4 x nboundary 0-2 x level predicate x explicit cpu_list, with empty blocks) "
+             "and compared with the traversal specification", "D7 fold of Loader.load over recording readers", "S1 traversal", floor=3)
+    lfold.check_load_space(run, tree)
+
+
+THOROUGH_RULES = [t_load_space]
